@@ -14,6 +14,7 @@ import datetime
 import decimal
 import os
 import pickle
+import re
 import shutil
 import traceback
 
@@ -530,7 +531,32 @@ def gen_constructed(rng):
                                          gen_oset(rng, TAGS), gen_oset(rng, LINKS)))
         else:
             entries.append(data.Custom(meta, date, 'budget', [ValueType('x', str)]))
+    # legal duplicates: a second directive with the SAME key fields (date, account / commodity pair / event type ...)
+    # as an earlier one, elsewhere in the list: every directive of the ledger has its own row in its table
+    if entries and rng.random() < 0.55:
+        for _ in range(rng.choice([1, 1, 2, 3])):
+            e = rng.choice(entries)
+            entries.insert(rng.randrange(len(entries) + 1), gen_twin(rng, e, fn, sloppy))
     return entries
+
+
+def gen_twin(rng, e, fn, sloppy):
+    """A directive with the same date and key fields as `e` (same account, same commodity and quote currency, same
+    event type, same document ...); metadata and the non-key value (number of a price / balance, comment of a note,
+    description of an event) are sometimes different, sometimes equal (an equal-valued, not identical, directive)."""
+    meta = gen_meta(rng, rng.randint(1, 500), fn, sloppy) if rng.random() < 0.7 else dict(e.meta)
+    same = rng.random() < 0.4
+    if isinstance(e, data.Price) and not same:
+        return e._replace(meta=meta, amount=amount.Amount(rng.choice(NUMBERS), e.amount.currency))
+    if isinstance(e, data.Balance) and not same:
+        return e._replace(meta=meta, amount=amount.Amount(rng.choice(NUMBERS), e.amount.currency))
+    if isinstance(e, data.Note) and not same:
+        return e._replace(meta=meta, comment=rng.choice(TEXTS))
+    if isinstance(e, data.Event) and not same:
+        return e._replace(meta=meta, description=rng.choice(TEXTS))
+    if isinstance(e, data.Transaction) and not same:
+        return e._replace(meta=meta, postings=list(e.postings))
+    return e._replace(meta=meta)
 
 
 def q(s):
@@ -592,7 +618,9 @@ def gen_text(rng):
         if rng.random() < 0.1:
             lines.append(f'{y}-01-{rng.randint(1, 9):02d} open {a}')   # duplicate open
     n = rng.choice([0, 1, 3, 6, 10])
+    pending = []     # repeated directives (same date and key fields as an earlier one), written further down
     for i in range(n):
+        start = len(lines)
         dt = datetime.date(rng.randint(2019, 2021), rng.randint(1, 12), rng.randint(1, 28)).isoformat()
         a, b = rng.sample(opened, 2)
         r = rng.random()
@@ -655,6 +683,17 @@ def gen_text(rng):
             lines.append(f'{dt} custom "budget" {a} "monthly" 10.00 USD TRUE')
         else:
             lines.append(f'2022-01-01 close {a}')
+        if rng.random() < 0.3:
+            # the same directive once more (legal: two prices of a commodity pair / balance assertions / notes /
+            # events / documents on one day, identical transactions), half of the time with another number
+            blk = list(lines[start:])
+            if rng.random() < 0.6:
+                blk[0] = re.sub(r'^(\S+ (?:price \S+|balance \S+)) [0-9.]+', lambda m: f'{m.group(1)} {tnum(rng)}', blk[0])
+            pending.append(blk)
+        if pending and rng.random() < 0.5:
+            lines += pending.pop(0)
+    for blk in pending:
+        lines += blk
     return '\n'.join(lines) + '\n'
 
 
@@ -758,6 +797,38 @@ def prewarm():
     run_query(conn, 'SELECT ' + ', '.join(conn.tables['postings'].columns))
 
 
+def directive_key(e):
+    """date + the fields that identify what a directive is about (not its value, not its metadata)"""
+    if isinstance(e, data.Price):
+        return (e.date, e.currency, e.amount.currency)
+    if isinstance(e, data.Transaction):
+        return (e.date, e.flag, e.payee, e.narration, tuple((p.account, p.units) for p in e.postings))
+    if isinstance(e, data.Event):
+        return (e.date, e.type)
+    if isinstance(e, data.Document):
+        return (e.date, e.account, e.filename)
+    if isinstance(e, data.Balance):
+        return (e.date, e.account, e.amount.currency)
+    if isinstance(e, data.Commodity):
+        return (e.date, e.currency)
+    if isinstance(e, data.Query):
+        return (e.date, e.name)
+    return (e.date, getattr(e, 'account', None))
+
+
+def repeated_keys(entries):
+    """directive type -> number of keys (see directive_key) carried by two or more directives of the ledger"""
+    groups = {}
+    for e in entries:
+        k = (type(e).__name__, directive_key(e))
+        groups[k] = groups.get(k, 0) + 1
+    out = {}
+    for (t, _), n in groups.items():
+        if n >= 2:
+            out[t] = out.get(t, 0) + 1
+    return out
+
+
 def run_impl(case):
     """-> dict(expr=<model input>, impl=<observations: canonical cells per column>, stats)"""
     try:
@@ -829,6 +900,7 @@ def run_impl(case):
             'cells': sum(len(v) for v in obs.values() if isinstance(v, list)),
             'session': list(case.get('session', [])),
             'session_statement_errors': session_errors,
+            'repeated_keys': repeated_keys(entries),
         }
         return {'expr': model_expr(entries, keys), 'impl': obs, 'stats': stats}
     except Exception:  # noqa: BLE001
@@ -1038,7 +1110,7 @@ def run(tier, rng):
     violations = []
     hist = {'entries_per_ledger': {}, 'max_postings_per_transaction': {}, 'ledgers_with_directive_type': {},
             'ledgers_with_metadata_value_type': {}, 'mode': {}, 'columns_raising': {}, 'session_statements': {},
-            'session_length': {}}
+            'session_length': {}, 'ledgers_with_repeated_directive_key': {}, 'repeated_directive_keys': {}}
     tot = {'postings': 0, 'postings_without_meta': 0, 'costs': 0, 'prices': 0, 'entries': 0, 'loader_errors': 0,
            'cells_compared': 0, 'session_statements_raising': 0}
     nontrivial = 0
@@ -1062,6 +1134,9 @@ def run(tier, rng):
             for kk in st['session']:
                 bump(hist['session_statements'], kk)
             bump(hist['session_length'], str(len(st['session'])))
+            for kk, nn in st['repeated_keys'].items():
+                bump(hist['ledgers_with_repeated_directive_key'], kk)
+                bump(hist['repeated_directive_keys'], kk, nn)
             tot['session_statements_raising'] += st['session_statement_errors']
             tot['postings'] += st['postings']
             tot['entries'] += st['entries']
@@ -1103,7 +1178,10 @@ def run(tier, rng):
         'distinct_nontrivial': nontrivial,
         'rule': 'ledgers from one PRNG: constructed beancount.core.data directives (any order, every directive type, '
                 '0..7 postings, postings with meta=None, equal-valued twin postings, costs with/without date and label, '
-                'prices, every metadata value type, duplicate open/close/commodity directives, a few metadata dicts '
+                'prices, every metadata value type, duplicate open/close/commodity directives, repeated directives of every '
+                'type = same date and key fields (two prices of one commodity pair on one day, two balance assertions / '
+                'notes / events / documents / pads with the same key, equal-valued transactions) with equal or different '
+                'values and metadata, at arbitrary distance, a few metadata dicts '
                 'without filename/lineno) attached via connect(entries=...), and ledger text (opens, commodities with '
                 'metadata, pad+balance, costs, prices, tags, links, metadata) through the Beancount loader; per ledger: '
                 'SELECT of every column of all 10 tables, the meta/entry_meta/any_meta/open_meta/commodity_meta/'
